@@ -2,5 +2,5 @@ SPECIFICATION Spec
 CONSTANTS
   N = 3
   XMax = 4
-INVARIANTS Inv_Increasing Inv_CodeIsSpec Inv_Knot Inv_Between Emit
+INVARIANTS Inv_Increasing Inv_CodeIsSpec Inv_Knot Inv_Between Inv_ScaleInvariant Emit
 CHECK_DEADLOCK FALSE
